@@ -129,12 +129,18 @@ func runUnits(repo, verif string, names []string, tier string, verbose, keep boo
 		if ct.Inline && len(ct.Ensures) == 0 {
 			continue
 		}
+		if ct.IsLemma && len(ct.Enums) > 0 {
+			continue // decided by exhaustive execution, below
+		}
 		tasks = append(tasks, p.unitTasks(ct)...)
 	}
 	cfg := solverCfg(verif, tier, "unit")
 	cfg.Keep = keep
 	cfg.NoSolve = os.Getenv("GOVC_NOSOLVE") != ""
 	all, units := p.runPipeline(cfg, tasks)
+	if len(names) > 0 {
+		all = append(all, p.execObligations("", names)...)
+	}
 	for _, u := range units {
 		if u.Err != "" {
 			fmt.Printf("UNIT %s%s: ERROR %s\n", u.Name, u.Suffix, u.Err)
@@ -150,6 +156,8 @@ func runUnits(repo, verif string, names []string, tier string, verbose, keep boo
 			fmt.Printf("%-8s %-10s %6.2fs %7dB %s  (%s) %s\n", o.Status, o.Solver, o.Secs, o.SMTBytes, o.Name, o.Pos, filepath.Base(o.SMTFile))
 			if !o.ok() && verbose {
 				fmt.Println(indent(truncate(o.Output, 3000)))
+			} else if o.Kind == "exhaustive" {
+				fmt.Println(indent(truncate(o.Output, 300)))
 			}
 		}
 	}
